@@ -244,6 +244,91 @@ func keyUnit(lo, hi int, deep bool) harness.Unit {
 	}}
 }
 
+// codecHistoryUnit: package-level state between calls. Every ordered triple of keys from a set with
+// 0, 1 and 2 leading zero bytes in either coordinate (and in d) goes through each key codec in ONE
+// process, in that order; every result must be what the codec gives for that key alone.
+func codecHistoryUnit() harness.Unit {
+	return harness.Unit{Name: "codec-histories", Run: func(c *harness.Ctx) {
+		var ks []sm2k.Key
+		for _, k := range keyAlphabet(false) {
+			switch k.Name {
+			case "unstructured", "Px-leading-zero", "Py-leading-zero", "Px-2-leading-zeros", "Py-2-leading-zeros", "Px,Py-leading-zero", "d<2^248", "d<2^240", "d 3 leading zero bytes":
+				ks = append(ks, k)
+			}
+		}
+		type codec struct {
+			name string
+			run  func(k sm2k.Key) string // returns "" or what is wrong
+		}
+		codecs := []codec{
+			{"hex-pub", func(k sm2k.Key) string {
+				back, err := gx509.ReadPublicKeyFromHex(gx509.WritePublicKeyToHex(k.LibPub()))
+				if err != nil {
+					return err.Error()
+				}
+				return samePub(back, k)
+			}},
+			{"hex-priv", func(k sm2k.Key) string {
+				back, err := gx509.ReadPrivateKeyFromHex(gx509.WritePrivateKeyToHex(k.Lib()))
+				if err != nil {
+					return err.Error()
+				}
+				return samePriv(back, k)
+			}},
+			{"pem-pub", func(k sm2k.Key) string {
+				b, err := gx509.WritePublicKeyToPem(k.LibPub())
+				if err != nil {
+					return err.Error()
+				}
+				back, err := gx509.ReadPublicKeyFromPem(b)
+				if err != nil {
+					return err.Error()
+				}
+				return samePub(back, k)
+			}},
+			{"pem-priv", func(k sm2k.Key) string {
+				b, err := gx509.WritePrivateKeyToPem(k.Lib(), nil)
+				if err != nil {
+					return err.Error()
+				}
+				back, err := gx509.ReadPrivateKeyFromPem(b, nil)
+				if err != nil {
+					return err.Error()
+				}
+				return samePriv(back, k)
+			}},
+			{"compress", func(k sm2k.Key) string {
+				back := sm2.Decompress(sm2.Compress(k.LibPub()))
+				if back == nil {
+					return "Decompress returned nil"
+				}
+				return samePub(back, k)
+			}},
+		}
+		for _, cd := range codecs {
+			n := len(ks)
+			for a := 0; a < n; a++ {
+				for b := 0; b < n; b++ {
+					for d := 0; d < n; d++ {
+						seq := []sm2k.Key{ks[a], ks[b], ks[d]}
+						c.Add("evaluations", 1)
+						c.DistinctS("nontrivial", fmt.Sprintf("history/%s/%d/%d/%d", cd.name, a, b, d))
+						c.Guard("codec-history-panic:"+cd.name, fmt.Sprintf("%s on [%s; %s; %s]", cd.name, seq[0].Name, seq[1].Name, seq[2].Name), nil, func() {
+							for i, k := range seq {
+								if why := cd.run(k); why != "" {
+									c.Violate("codec-history:"+cd.name, fmt.Sprintf("%s round trip of key %q fails as step %d of the call history [%s; %s; %s] in one process: %s", cd.name, k.Name, i, seq[0].Name, seq[1].Name, seq[2].Name, why), nil, nil)
+									return
+								}
+							}
+						})
+					}
+				}
+			}
+		}
+		c.Sample("every ordered triple of 9 keys (0/1/2 leading zero bytes in x, y or d) through hex, PEM and compressed-point codecs in one process")
+	}}
+}
+
 func dClass(d *big.Int) string {
 	h := d.Text(16)
 	switch {
@@ -433,6 +518,7 @@ var Prop = &harness.Prop{
 	Units: func(tier string) []harness.Unit {
 		deep := tier == "thorough"
 		n := len(sm2k.Alphabet()) + 4
+		_ = n
 		if deep {
 			n++
 		}
@@ -440,7 +526,7 @@ var Prop = &harness.Prop{
 		for lo := 0; lo < n; lo += 2 {
 			u = append(u, keyUnit(lo, lo+1, deep))
 		}
-		u = append(u, sigCipherUnit(), loadersUnit())
+		u = append(u, sigCipherUnit(), loadersUnit(), codecHistoryUnit())
 		return u
 	},
 }
